@@ -160,7 +160,22 @@ func oneConcurrent(p concParams, seed uint64) (string, map[string]int) {
 	time.Sleep(time.Duration(closer.Range(5, 60)) * time.Millisecond)
 	if closer.Chance(1, 2) {
 		t := closer.Intn(p.NTopics)
-		subs[t].Close()
+		cd := make(chan struct{})
+		go func() {
+			defer func() {
+				if x := recover(); x != nil {
+					lg.add(hlib.App("CBad", "2%N"))
+				}
+			}()
+			subs[t].Close()
+			close(cd)
+		}()
+		select {
+		case <-cd:
+		case <-time.After(3 * time.Second):
+			lg.add(hlib.App("CBad", "1%N")) // Client.Close did not return although its subscriber keeps reading
+			bump("close-stuck")
+		}
 		atomic.StoreInt64(&closedSeq[t], atomic.AddInt64(&lg.seq, 1))
 		time.Sleep(time.Duration(closer.Range(0, 10)) * time.Millisecond)
 	}
@@ -170,12 +185,16 @@ func oneConcurrent(p concParams, seed uint64) (string, map[string]int) {
 	go func() { wgReq.Wait(); close(fin) }()
 	select {
 	case <-fin:
-	case <-time.After(8 * time.Second):
-		lg.add(hlib.App("CWaitAfterClose", "false")) // a requester never came back
+	case <-time.After(5 * time.Second):
+		lg.add(hlib.App("CBad", "3%N")) // a requester never came back
 		bump("requester-stuck")
 	}
 	for _, s := range subs {
-		go s.Close()
+		s := s
+		go func() {
+			defer func() { _ = recover() }()
+			s.Close()
+		}()
 	}
 	lg.mu.Lock()
 	defer lg.mu.Unlock()
